@@ -584,6 +584,37 @@ pub fn model_decode_cookie(_ks: &KeySet, cookie: &[u8]) -> Result<DecodedServerC
     ))
 }
 
+/// Model of `<KeySet as CipherProvider>::get` (keyset.rs: "find the single cookie field among the
+/// fields seen so far and decode it; no cookie, two cookies or an undecodable cookie => None").
+/// Same logic, written with an index loop: the real function iterates the `Vec` by pointer, which
+/// symex unrolls to the unwind bound with garbage elements, each of them allocating and dropping
+/// boxed `dyn Cipher`s (measured: > 5 GB before the first decrypt call). Consequence: the "exactly
+/// one cookie" rule itself is part of the model, not of the claim.
+pub fn model_keyset_get<'a>(ks: &'a KeySet, context: &[ntp_proto::verif::packet::Ef<'_>]) -> Option<ntp_proto::verif::packet::crypto::CipherHolder<'a>> {
+    use ntp_proto::verif::packet::Ef;
+    let mut found: Option<usize> = None;
+    let mut i = 0;
+    while i < context.len() {
+        if let Ef::NtsCookie(_) = &context[i] {
+            if found.is_some() {
+                return None;
+            }
+            found = Some(i);
+        }
+        i += 1;
+    }
+    match found {
+        None => None,
+        Some(i) => match &context[i] {
+            Ef::NtsCookie(c) => match model_decode_cookie(ks, c) {
+                Ok(d) => Some(ntp_proto::verif::packet::crypto::CipherHolder::DecodedServerCookie(d)),
+                Err(_) => None,
+            },
+            _ => None,
+        },
+    }
+}
+
 /// Model of `KeySet::encode_cookie`: a fresh opaque cookie of `FRESH_COOKIE_LEN` bytes whose first
 /// bytes say which encode call produced it and for which session keys; records the key set used.
 pub fn model_encode_cookie(ks: &KeySet, cookie: &DecodedServerCookie) -> Vec<u8> {
@@ -732,6 +763,7 @@ macro_rules! srv_harness {
         harness! {
             #[kani::stub(ntp_proto::KeySet::decode_cookie, crate::common::model_decode_cookie)]
             #[kani::stub(ntp_proto::KeySet::encode_cookie, crate::common::model_encode_cookie)]
+            #[kani::stub(<ntp_proto::KeySet as ntp_proto::CipherProvider>::get, crate::common::model_keyset_get)]
             #[kani::stub(<ntp_proto::verif::packet::crypto::AesSivCmac256 as ntp_proto::verif::packet::crypto::Cipher>::decrypt, crate::common::aes256_decrypt_unreachable)]
             #[kani::stub(<ntp_proto::verif::packet::crypto::AesSivCmac512 as ntp_proto::verif::packet::crypto::Cipher>::decrypt, crate::common::aes512_decrypt_unreachable)]
             #[kani::stub(<ntp_proto::verif::packet::crypto::AesSivCmac256 as ntp_proto::verif::packet::crypto::Cipher>::encrypt, crate::common::aes256_encrypt_unreachable)]
